@@ -198,7 +198,7 @@ class Evaluator:
         vals = [self.ev(e, path, spec) for e in node.elts]
         if not vals:
             if et is None:
-                raise Unsupported('empty sequence literal of unknown element type')
+                return ('emptyseq',)
             return S.seq_from_list(et, [])
         tys = {v.ty for v in vals if isinstance(v, V)}
         if len(tys) == 1 and all(isinstance(v, V) for v in vals) and isinstance(node, ast.List):
@@ -345,6 +345,9 @@ class Evaluator:
         return {ast.Lt: x < y, ast.LtE: x <= y, ast.Gt: x > y, ast.GtE: x >= y}[t]
 
     def eq(self, a, b):
+        for x, y in ((a, b), (b, a)):
+            if isinstance(x, tuple) and x[0] == 'emptyseq' and isinstance(y, V) and y.ty[0] == 'seq':
+                return S.seq_n(y) == 0
         if isinstance(a, tuple) or isinstance(b, tuple):
             if isinstance(a, tuple) and isinstance(b, tuple) and a[0] == 'pytuple' and b[0] == 'pytuple':
                 return And(*[self.eq(x, y) for x, y in zip(a[1], b[1])])
@@ -577,6 +580,8 @@ class Engine:
         self._axiom_keys = set()
         self.catch = None               # try/except support
         self.in_axiom = False
+        self.define_result = False
+        self.result_defined = False
         self.set_cache = {}
         self.assumptions_used = set()
         self.loop_counter = {}
@@ -649,6 +654,15 @@ class Engine:
                     s = self.to_set(s)
                     f = And(S.seq_sorted_strict(x), S.set_eq(S.seq_to_set(x), s))
                     return f if isinstance(node.ops[0], ast.Eq) else Not(f)
+            # assumption side of a pure-function contract: `result == E` fixes the representation of
+            # the function symbol's value (the symbol is ours, so this is a definition, not a restriction)
+            if self.define_result and isinstance(node.ops[0], ast.Eq) and isinstance(l, ast.Name) and l.id == 'result' \
+                    and not self.result_defined:
+                a = ev.ev(l, p, True)
+                b = ev.ev(r, p, True)
+                if isinstance(a, V) and isinstance(b, V) and a.ty == b.ty and a.ty[0] in ('block', 'seq'):
+                    self.result_defined = True
+                    return a.t == b.t
         return as_bool(ev.ev(node, p, True))
 
     def to_set(self, v):
@@ -891,6 +905,8 @@ class Engine:
         for k in node.keywords:
             v = ev.ev(k.value, path, spec)
             ft = dict(S.BLOCK_FIELDS)[k.arg]
+            if isinstance(v, tuple) and v[0] == 'emptyseq':
+                v = S.seq_from_list(ft[1], [])
             if isinstance(v, V) and v.ty != ft:
                 v = self.coerce(v, ft, ev)
             kw[k.arg] = v
@@ -1049,6 +1065,23 @@ class Engine:
             return S.vbool(S.set_eq(self.to_set(E(0)), self.to_set(E(1))))
         if name == 'reach1':
             return self.reach1(ev, node, path, spec)
+        if name == 'without':
+            d, ns_ = E(0), self.to_set(E(1))
+            x = z3.FreshConst(S.sort_of(d.ty[1]), 'wx')
+            return S.mk_dict(d.ty[1], d.ty[2], z3.Lambda([x], And(S.dict_has(d, x), Not(Select(ns_.t, x)))), S.dict_val(d))
+        if name == 'issubclass_synthetic':
+            c = E(0)
+            cs = SRC.block_classes()
+            return S.vbool(Or(*[c.t == cs[n]['id'] for n in sorted(SRC.subclasses('SyntheticBlock'))]))
+        from contracts.macros import MACROS
+        if name in MACROS:
+            params, body = MACROS[name]
+            sub_env = {pn: E(i) for i, pn in enumerate(params)}
+            p2 = Path(sub_env, path.hyps)
+            p2.guards = path.guards
+            sub = Evaluator(self, ev.modname)
+            sub.qdepth = ev.qdepth
+            return S.vbool(self._formula(sub, ast.parse(body, mode='eval').body, p2))
         return NotImplemented
 
     def call_ext(self, ev, fv, node, path, spec):
@@ -1074,7 +1107,8 @@ class Engine:
                 return S.vint(i)
             if meth == 'append':
                 x = self.coerce(E(0), et, ev)
-                self.assign_to(ev, basenode, S.mk_seq(et, Store(arr, n, x.t), n + 1), path)
+                r = self.seq_store(base, n, x.t, n + 1, path)
+                self.assign_to(ev, basenode, r, path)
                 return NONE
             if meth == 'copy':
                 return base
@@ -1144,6 +1178,19 @@ class Engine:
                 return base
         raise Unsupported('method %s on %r' % (meth, base.ty))
 
+    def seq_store(self, base, i, x, n, path):
+        """base[i] = x as a named array with two-direction triggered axioms (a bare
+        Store term gives e-matching nothing to instantiate `exists k` goals with)."""
+        arr = S.seq_arr(base)
+        r = self.fresh_seq(base.ty[1], 'upd')
+        ra = S.seq_arr(r)
+        k = z3.FreshInt('uk')
+        path.assume(S.seq_n(r) == n)
+        path.assume(Select(ra, i) == x)
+        path.assume(ForAll([k], Implies(k != i, Select(ra, k) == Select(arr, k)), patterns=[Select(ra, k)]))
+        path.assume(ForAll([k], Implies(k != i, Select(ra, k) == Select(arr, k)), patterns=[Select(arr, k)]))
+        return r
+
     def seq_remove_at(self, base, i, path):
         arr, n = S.seq_arr(base), S.seq_n(base)
         r = self.fresh_seq(base.ty[1], 'rm')
@@ -1184,7 +1231,7 @@ class Engine:
             if base.ty[0] == 'seq':
                 n = S.seq_n(base)
                 self.add_obligation(path, 'noraise', ast.unparse(target) + ' = ...', And(0 <= idx.t, idx.t < n), 'IndexError')
-                new = S.mk_seq(base.ty[1], Store(S.seq_arr(base), idx.t, self.coerce(val, base.ty[1], ev).t), n)
+                new = self.seq_store(base, idx.t, self.coerce(val, base.ty[1], ev).t, n, path)
             elif base.ty[0] == 'dict':
                 new = S.dict_set(base, idx.t, self.coerce(val, base.ty[2], ev).t)
             else:
@@ -1330,8 +1377,12 @@ class Engine:
                 env = dict(vals)
                 env['old'] = Namespace(dict(vals))
                 env['result'] = res
-                for cn, text in c.ensures.items():
-                    path.assume(self.spec_formula(ast.parse(text, mode='eval').body, env, path, cm))
+                self.define_result, self.result_defined = True, False
+                try:
+                    for cn, text in c.ensures.items():
+                        path.assume(self.spec_formula(ast.parse(text, mode='eval').body, env, path, cm))
+                finally:
+                    self.define_result = False
             return res
         if spec:
             raise Unsupported('call of impure %s in contract text' % qual)
@@ -1422,9 +1473,11 @@ class Engine:
             env2['old'] = Namespace(dict(env))
             env2['result'] = res
             req = [self.spec_formula(ast.parse(t, mode='eval').body, env, scratch, cm) for t in c.requires.values()]
+            self.define_result, self.result_defined = True, False
             ens = [self.spec_formula(ast.parse(t, mode='eval').body, env2, scratch, cm) for t in c.ensures.values()]
         finally:
             self.in_axiom = prev
+            self.define_result = False
         if scratch.hyps:
             raise Unsupported('pure contract %s uses constructs that need definitional assumptions' % c.qual)
         if not ens:
@@ -1525,9 +1578,24 @@ class Engine:
             val = ev.ev(v, path, False)
             if isinstance(val, tuple) and val[0] in ('emptyseq', 'emptyset', 'emptydict'):
                 val = self.typed_empty(tname, None)
+        if isinstance(val, V) and tname is not None and val.ty[0] in ('seq', 'block', 'dict') \
+                and not z3.is_const(val.t) and self.term_size(val.t) > 3:
+            # let-abstraction: name a large term (keeps later formulas and patterns small)
+            c = S.fresh(val.ty, 'let_' + tname)
+            path.hyps.append(c.t == val.t)
+            val = c
         for tgt in st.targets:
             self.assign_target(ev, tgt, val, path)
         return [(path, None)]
+
+    def term_size(self, t, limit=40):
+        n, stack = 0, [t]
+        while stack and n <= limit:
+            x = stack.pop()
+            n += 1
+            if z3.is_app(x):
+                stack.extend(x.children())
+        return n
 
     def assign_target(self, ev, tgt, val, path):
         if isinstance(tgt, (ast.Tuple, ast.List)):
@@ -1766,7 +1834,8 @@ class Engine:
 
     def loop_key(self, st):
         if isinstance(st, ast.For):
-            k = 'for %s in %s' % (ast.unparse(st.target), ast.unparse(st.iter))
+            tg = ', '.join(ast.unparse(e) for e in st.target.elts) if isinstance(st.target, ast.Tuple) else ast.unparse(st.target)
+            k = 'for %s in %s' % (tg, ast.unparse(st.iter))
         else:
             k = 'while %s' % ast.unparse(st.test)
         return k
@@ -1838,6 +1907,7 @@ class Engine:
                     if isinstance(c0, V) and c0.ty[0] == 'seq':
                         mode = 'index'
                         n_it = S.seq_n(c0)
+                        seen_seq = c0
                 if mode is None:
                     mode = 'set'
                     x0 = z3.FreshConst(S.sort_of(qt), 'ix')
@@ -1852,6 +1922,20 @@ class Engine:
         entry = Namespace(dict(path.env))
         base_env = lambda p: dict(p.env, entry=entry, old=self.old_ns)
         results = []
+        seen_name = spec.index + '_seen'
+        if mode != 'index' or 'seen_seq' not in locals() or seen_seq.ty[1][0] not in ('name', 'int'):
+            seen_seq = None
+
+        def seen_at(i_term, p_):
+            """ghost: the set of elements at positions < i (a named constant with its definition)."""
+            sc = z3.FreshConst(S.sort_of(('set', seen_seq.ty[1])), 'seen')
+            y = z3.FreshConst(S.sort_of(seen_seq.ty[1]), 'sy')
+            m = z3.FreshInt('sm')
+            p_.hyps.append(ForAll([y], Select(sc, y) == Exists([m], And(0 <= m, m < i_term, Select(S.seq_arr(seen_seq), m) == y)),
+                                  patterns=[Select(sc, y)]))
+            p_.hyps.append(ForAll([m], Implies(And(0 <= m, m < i_term), Select(sc, Select(S.seq_arr(seen_seq), m))),
+                                  patterns=[Select(S.seq_arr(seen_seq), m)]))
+            return V(('set', seen_seq.ty[1]), sc)
         # iterated collection must not be modified by the body (termination + snapshot semantics)
         it_roots = {n.id for n in ast.walk(it_node) if isinstance(n, ast.Name)}
         if it_roots & names:
@@ -1862,6 +1946,8 @@ class Engine:
         gty = T_INT if mode == 'index' else ('set', qt)
         env0 = base_env(path)
         env0[gname] = V(gty, g0)
+        if seen_seq is not None:
+            env0[seen_name] = S.set_empty(seen_seq.ty[1])
         self.check_inv(spec, key, env0, path, 'inv-init')
         # ---- arbitrary iteration
         p = path.copy()
@@ -1878,15 +1964,22 @@ class Engine:
             p.assume(And(dom(q), Not(Select(g, q))))
         envh = base_env(p)
         envh[gname] = V(gty, g)
+        if seen_seq is not None:
+            seen_h = seen_at(g, p)
+            envh[seen_name] = seen_h
         self.assume_inv(spec, envh, p)
         self.assume_lemmas(spec, envh, p)
         p.env.update(bind(q))
         p.env[gname] = V(gty, g)
+        if seen_seq is not None:
+            p.env[seen_name] = seen_h
         outs = self.run(st.body, p)
         for p2, o in outs:
             if o in (None, 'continue'):
                 env2 = base_env(p2)
                 env2[gname] = V(gty, g + 1 if mode == 'index' else Store(g, q, True))
+                if seen_seq is not None:
+                    env2[seen_name] = V(seen_h.ty, Store(seen_h.t, Select(S.seq_arr(seen_seq), g), True))
                 self.check_inv(spec, key, env2, p2, 'inv-step')
             elif o == 'break':
                 results.append((p2, None))
@@ -1897,6 +1990,8 @@ class Engine:
         self.havoc(p3, names, locs)
         env3 = base_env(p3)
         env3[gname] = V(gty, n_it if mode == 'index' else whole.t)
+        if seen_seq is not None:
+            env3[seen_name] = seen_at(n_it, p3)
         self.assume_inv(spec, env3, p3)
         self.assume_lemmas(spec, env3, p3)
         # targets assigned by the loop are unknown afterwards
@@ -1956,12 +2051,13 @@ class Engine:
         ty = S.parse_type(tytext)
         if ty[0] == 'obj':
             return VObj(ty[1], {k: self.symbolic_param(name + '_' + k, t) for k, t in OBJ_CLASSES[ty[1]].items()})
-        return V(ty, z3.Const('in!' + name, S.sort_of(ty)))
+        return S.register_wf(V(ty, z3.Const('in!' + name, S.sort_of(ty))))
 
     def generate(self):
         """Symbolically execute the function; returns the obligation list."""
         if self.fn is None:
             raise Unsupported('function not found in the source: ' + self.c.qual)
+        S.reset_wf()
         c = self.c
         # loop ordinals (for duplicate loop headers)
         self.loop_ordinals = {}
